@@ -2,9 +2,13 @@
 package main
 
 import (
+	"bufio"
 	"fmt"
+	"io"
 	"math/big"
 	"os"
+	"os/exec"
+	"runtime/debug"
 	"sort"
 	"strings"
 	"time"
@@ -298,7 +302,7 @@ func classify(v interface{}) string {
 	return "other"
 }
 
-// hangs counts watchdog expiries; generation stops after maxHangs of them.
+// hangs counts watchdog expiries and worker crashes; generation stops after maxHangs of them.
 var hangs int
 
 const maxHangs = 6
@@ -312,32 +316,103 @@ var watchdog = func() time.Duration {
 	return 20 * time.Second
 }()
 
-// call runs FindSequence on targets (which it may re-order); the result line reports the chain
-// and the caller's slice as it is after the call.
-func call(a alg.SequenceAlgorithm, targets []*big.Int) string {
-	done := make(chan string, 1)
-	go func() {
-		defer func() {
-			if v := recover(); v != nil {
-				done <- "panic " + classify(v)
-			}
-		}()
-		c, err := a.FindSequence(targets)
-		if err != nil {
-			if err.Error() == "failed to find sequence" {
-				done <- "err noseq"
-			} else {
-				done <- "err other"
-			}
-			return
+// direct runs FindSequence in this process; the result line reports the chain and the caller's
+// slice as it is after the call. Used by the worker process only.
+func direct(a alg.SequenceAlgorithm, targets []*big.Int) (res string) {
+	defer func() {
+		if v := recover(); v != nil {
+			res = "panic " + classify(v)
 		}
-		done <- "ok " + lib.HexList(c) + " " + lib.HexList(targets)
 	}()
+	c, err := a.FindSequence(targets)
+	if err != nil {
+		if err.Error() == "failed to find sequence" {
+			return "err noseq"
+		}
+		return "err other"
+	}
+	return "ok " + lib.HexList(c) + " " + lib.HexList(targets)
+}
+
+// The implementation runs in a worker process (this binary, subcommand "worker") so that a
+// call that never returns can be killed and an unrecoverable crash (Go's stack overflow is
+// fatal) costs one case instead of the whole run.
+type worker struct {
+	cmd   *exec.Cmd
+	in    io.WriteCloser
+	lines chan string
+}
+
+var theWorker *worker
+
+func startWorker() *worker {
+	exe, err := os.Executable()
+	if err != nil {
+		panic(err)
+	}
+	cmd := exec.Command(exe, "worker")
+	in, err := cmd.StdinPipe()
+	if err != nil {
+		panic(err)
+	}
+	out, err := cmd.StdoutPipe()
+	if err != nil {
+		panic(err)
+	}
+	if err := cmd.Start(); err != nil {
+		panic(err)
+	}
+	w := &worker{cmd: cmd, in: in, lines: make(chan string, 1)}
+	go func() {
+		sc := bufio.NewScanner(out)
+		sc.Buffer(make([]byte, 1<<20), 1<<28)
+		for sc.Scan() {
+			w.lines <- sc.Text()
+		}
+		close(w.lines)
+	}()
+	return w
+}
+
+func (w *worker) stop() {
+	w.in.Close()
+	w.cmd.Process.Kill()
+	w.cmd.Wait()
+}
+
+func workerLoop() {
+	debug.SetMaxStack(256 << 20) // fail fast on runaway recursion
+	sc := bufio.NewScanner(os.Stdin)
+	sc.Buffer(make([]byte, 1<<20), 1<<28)
+	w := bufio.NewWriter(os.Stdout)
+	for sc.Scan() {
+		f := strings.Split(sc.Text(), " ")
+		fmt.Fprintln(w, direct(byName[f[0]].alg, lib.ParseHexList(f[1])))
+		w.Flush()
+	}
+}
+
+// call runs one FindSequence in the worker: "hang" after the watchdog time (worker killed),
+// "panic fatal" if the worker died.
+func call(name string, targets []*big.Int) string {
+	if theWorker == nil {
+		theWorker = startWorker()
+	}
+	w := theWorker
+	fmt.Fprintf(w.in, "%s %s\n", name, lib.HexList(targets))
 	select {
-	case res := <-done:
+	case res, ok := <-w.lines:
+		if !ok {
+			hangs++
+			w.stop()
+			theWorker = nil
+			return "panic fatal"
+		}
 		return res
 	case <-time.After(watchdog):
 		hangs++
+		w.stop()
+		theWorker = nil
 		return "hang"
 	}
 }
@@ -356,7 +431,7 @@ func parse(c string) (config, []*big.Int) {
 
 func run(c string) string {
 	cfg, ts := parse(c)
-	return call(cfg.alg, ts)
+	return call(cfg.alg.String(), ts)
 }
 
 // ---- oracle: the property stated directly ----
@@ -434,22 +509,8 @@ func oracle(c, res string) string {
 	if res == "hang" {
 		return "no answer within the watchdog time"
 	}
-	// independent second run on a fresh deep copy: the values of the caller's integers must be
-	// unchanged (the slice may be re-ordered)
-	again := call(cfg.alg, ts)
-	a, b := sortedStrings(orig), sortedStrings(ts)
-	for i := range a {
-		if a[i] != b[i] {
-			return fmt.Sprintf("target values changed by the call: %v -> %v", orig, ts)
-		}
-	}
-	if again != res && !(strings.HasPrefix(again, "ok ") && strings.HasPrefix(res, "ok ") &&
-		strings.Fields(again)[1] == strings.Fields(res)[1]) {
-		return "second run differs: " + again
-	}
+	a := sortedStrings(orig)
 	switch {
-	case res == "hang":
-		return "no answer within the watchdog time"
 	case strings.HasPrefix(res, "panic"):
 		return "panicked on positive targets: " + res
 	case strings.HasPrefix(res, "err"):
@@ -457,6 +518,10 @@ func oracle(c, res string) string {
 			return "error from a configuration that must always find a sequence: " + res
 		}
 		return "" // a partial heuristic on its own may give up
+	}
+	// independent second run: the function is deterministic
+	if again := call(cfg.alg.String(), orig); again != res {
+		return "second run differs: " + again
 	}
 	f := strings.Fields(res)
 	if len(f) != 3 || f[0] != "ok" {
@@ -503,6 +568,15 @@ func nontrivial(c, res string) bool {
 }
 
 func main() {
+	if len(os.Args) > 1 && os.Args[1] == "worker" {
+		workerLoop()
+		return
+	}
+	defer func() {
+		if theWorker != nil {
+			theWorker.stop()
+		}
+	}()
 	lib.Main(lib.Prop{ID: "C08", Gen: gen, Run: run, Oracle: oracle, Nontrivial: nontrivial,
 		PanicClass: classify})
 }
